@@ -1,7 +1,7 @@
 import GuppyVerif.Lemmas.C01Get
 /-! Wire accounting for `getitem` on a place stored as leaves: every leaf wire is consumed by
     exactly one `MakeTuple`, linear sub-places are forgotten afterwards. -/
-namespace GuppyVerif.Wiring
+namespace GuppyVerif.DFWiring
 
 mutual
 /-- wires of the leaf sub-places, left to right (recursive form) -/
@@ -222,4 +222,4 @@ theorem getitemList_acct : ∀ (ts : List Ty) (L : Locals) (n : Nat) (p : PlaceI
   | _ :: _, _, _, _, _, _, [], _, h, _ => by simp [HoldsList] at h
 end
 
-end GuppyVerif.Wiring
+end GuppyVerif.DFWiring
